@@ -29,8 +29,8 @@ ASSUMPTIONS = [
 SHARDS = {"quick": 8, "thorough": 16}
 FLOOR = 0.5
 REQUIRED_CLASSES = {
-    "quick": ["open-branch", "shorted-branch", "partial-short", "container", "private-element", "depth>=3", "unordered-f", "single-f", "all-open-refused", "empty-connection", "open-branch-non-resistor", "builder-history", "builder-mutate-returned"],
-    "thorough": ["open-branch", "shorted-branch", "partial-short", "container", "private-element", "depth>=3", "unordered-f", "single-f", "all-open-refused", "empty-connection", "open-branch-non-resistor", "builder-history", "builder-mutate-returned"],
+    "quick": ["open-branch", "shorted-branch", "partial-short", "container", "private-element", "depth>=3", "unordered-f", "single-f", "all-open-refused", "empty-connection", "open-branch-non-resistor", "builder-history", "builder-mutate-returned", "container-isolation"],
+    "thorough": ["open-branch", "shorted-branch", "partial-short", "container", "private-element", "depth>=3", "unordered-f", "single-f", "all-open-refused", "empty-connection", "open-branch-non-resistor", "builder-history", "builder-mutate-returned", "container-isolation"],
 }
 
 USER_SYMBOL = "Xps"
@@ -481,8 +481,61 @@ def ctor_body(ctx, case):
     ctx.record(case, form != "element", {"ctor:" + form}, "single element")
 
 
+def isolation_cases(ctx):
+    """Every container class x every connection-valued default sub-circuit x in-place edit x way of building the next one."""
+    from pyimpspec.circuit.base import Container
+
+    for sym, cls in sorted(G.element_classes(private=True).items()):
+        if not issubclass(cls, Container) or sym.startswith("X"):
+            continue
+        for key, sub in sorted(cls().get_subcircuits().items()):
+            if sub is None:
+                continue
+            for edit in ("append", "value"):
+                if edit == "value" and not sub.get_elements():
+                    continue
+                for route in ("constructor", "parsed", "parsed-pair"):
+                    yield {"sym": sym, "key": key, "edit": edit, "route": route}
+
+
+def isolation_body(ctx, item):
+    """The impedance of a circuit does not depend on what was done earlier to *another* object of the same class: a
+    container left at its default sub-circuits is edited in place, then a new one is built."""
+    from pyimpspec import parse_cdc
+    from pyimpspec.circuit.elements import Resistor
+
+    cls = G.element_classes(private=True)[item["sym"]]
+    f = np.logspace(-2, 5, 8)
+    z_ref = cls().get_impedances(f)
+    default_text = {k: (v.to_string(12) if v is not None else None) for k, v in cls().get_subcircuits().items()}
+    a = cls()
+    sub = a.get_subcircuit(item["key"])
+    if item["edit"] == "append":
+        sub.append(Resistor(R=0.37))
+    else:
+        el = sub.get_elements()[0]
+        k, v = sorted(el.get_values().items())[0]
+        el.set_values(**{k: v * 1.7})
+    if item["route"] == "constructor":
+        b = cls()
+    elif item["route"] == "parsed":
+        b = parse_cdc(item["sym"]).get_elements()[0]
+    else:
+        b = parse_cdc(f"[{item['sym']}{item['sym']}]").get_elements()[1]
+    now = {k: (v.to_string(12) if v is not None else None) for k, v in b.get_subcircuits().items()}
+    ok = ctx.check(now == default_text, "fresh-container-has-default-subcircuits", item,
+                   f"after editing sub-circuit {item['key']} of one {item['sym']} in place ({item['edit']}), a new {item['sym']} ({item['route']}) starts with {now} instead of {default_text}")
+    try:
+        z_b = b.get_impedances(f)
+        ok &= ctx.check(bool(np.array_equal(z_b, z_ref)), "impedance-independent-of-earlier-objects", item, f"a new {item['sym']} gives {z_b[:2]} instead of {z_ref[:2]} after another instance was edited")
+    except Exception as e:  # noqa: BLE001
+        ctx.fail("impedance-independent-of-earlier-objects", item, f"a new {item['sym']} raises {type(e).__name__} after another instance was edited: {e}")
+    ctx.record(item, True, ["container-isolation", "isolation:" + item["route"]])
+
+
 def parts(ctx):
     return [
+        Part("container-isolation", isolation_body, items=isolation_cases, exhaustive=True, shard=False),
         Part("constructor-forms", ctor_body, items=ctor_cases, exhaustive=True, shard=False),
         Part("shapes-exhaustive", body, items=shape_cases, exhaustive=True),
         Part("random-circuits", body, strategy=random_case(), n={"quick": 3200, "thorough": 30000}),
